@@ -1,6 +1,7 @@
 /-
   Dirk.Model.LockTrace — the sequence of locker and store calls one signing request makes
-  (ruler.RunRules + rules), as the sequential model predicts it for a fault-free request.
+  (ruler.RunRules + rules), as the sequential model predicts it for a request without store faults
+  (`lockStateFail`: the request is refused by the pre-check, before `RunRules`, so it makes no calls at all).
   This is the per-request program of Dirk.Model.Conc instantiated for a concrete request:
   PreLock; Lock k…; PostLock; ⟨fetches; at most one store⟩; Unlock … in reverse.  Core Lean only.
 -/
@@ -37,18 +38,20 @@ def innerProp (db : Db) (pk : Bytes) (r : PropReq) : List LTok :=
     | none => [.fetch]
     | some st => if st ≥ 0 ∧ r.slot ≤ u64 st then [.fetch] else [.fetch, .store, .stored]
 
-def traceAtt (s : Inst) (c : String) (a : Addr) (d : AttData) : List LTok :=
+def traceAtt (s : Inst) (c : String) (a : Addr) (d : AttData) (lockStateFail : Bool := false) :
+    List LTok :=
   if !d.wellFormed then [] else
-  match preCheck s.cfg c a opAttest with
+  match preCheck s.cfg c a opAttest lockStateFail with
   | .error _ => []
   | .ok acct => lockWrap [toBytes48 acct.pubkey] (innerAtt s.db acct.pubkey d.req)
 
-def traceAtts (s : Inst) (c : String) (items : List (Addr × AttData)) : List LTok :=
+def traceAtts (s : Inst) (c : String) (items : List (Addr × AttData)) (lockStateFail : Bool := false) :
+    List LTok :=
   if items.length = 0 then [] else
   match firstMalformed (items.map (·.2)) with
   | some _ => []
   | none =>
-    let pcs := preCheckAll s.cfg c opAttest items
+    let pcs := preCheckAll s.cfg c opAttest items lockStateFail
     if pcs.any isErr then [] else
     let keyed := okItems pcs
     match firstDup [] 0 (keyed.map (·.1)) with
@@ -59,25 +62,28 @@ def traceAtts (s : Inst) (c : String) (items : List (Addr × AttData)) : List LT
          | [(k, d)] => innerAtt s.db k d.req
          | _ => innerBatch s.db (keyed.map (·.1)))
 
-def traceProp (s : Inst) (c : String) (a : Addr) (d : PropData) : List LTok :=
+def traceProp (s : Inst) (c : String) (a : Addr) (d : PropData) (lockStateFail : Bool := false) :
+    List LTok :=
   if !d.wellFormed then [] else
-  match preCheck s.cfg c a opPropose with
+  match preCheck s.cfg c a opPropose lockStateFail with
   | .error _ => []
   | .ok acct => lockWrap [toBytes48 acct.pubkey]
       (innerProp s.db acct.pubkey { domain := d.domain.getD [], slot := d.slot })
 
-def traceSign (s : Inst) (c : String) (a : Addr) (d : SignData) : List LTok :=
+def traceSign (s : Inst) (c : String) (a : Addr) (d : SignData) (lockStateFail : Bool := false) :
+    List LTok :=
   if !d.wellFormed then [] else
-  match preCheck s.cfg c a opSign with
+  match preCheck s.cfg c a opSign lockStateFail with
   | .error _ => []
   | .ok acct => lockWrap [toBytes48 acct.pubkey] []
 
-def traceMsign (s : Inst) (c : String) (items : List (Addr × SignData)) : List LTok :=
+def traceMsign (s : Inst) (c : String) (items : List (Addr × SignData)) (lockStateFail : Bool := false) :
+    List LTok :=
   if items.length = 0 then [] else
   match (items.map (·.2)).findIdx? (fun d => !d.wellFormed) with
   | some _ => []
   | none =>
-    let pcs := preCheckAll s.cfg c opSign items
+    let pcs := preCheckAll s.cfg c opSign items lockStateFail
     if pcs.any isErr then [] else
     let keyed := okItems pcs
     match firstDup [] 0 (keyed.map (·.1)) with
